@@ -18,6 +18,11 @@ type Finding struct {
 
 func report(c *eng.Ctx, prop string, idx int, r *Run, fs []Finding) {
 	seen := map[string]bool{}
+	// group slices handed to the caller: what each resolution delivered stays what it delivered
+	// (judged by the properties that speak about what a resolution yields)
+	if r != nil && (prop == "C01" || prop == "C02" || prop == "C03" || prop == "C04" || prop == "C09") {
+		fs = append(append([]Finding(nil), fs...), r.SliceFindings()...)
+	}
 	for _, f := range fs {
 		sig := prop + "/" + f.Clause
 		if f.Sig != "" {
